@@ -1,4 +1,320 @@
-import NmlVerif.Model.Section
+import NmlVerif.Proofs.Section
+/-!
+# C16 — unbranched sectioning partitions the tree into maximal chains, altering nothing
+
+Model: `NmlVerif.Section` (`Model/Section.lean`) of `Cell.create_unbranched_segment_group_branches`, tied to
+`neuroml/nml/helper_methods.py` / `neuroml/nml/nml.py` by the correspondence check `harness/props/c16.py`
+(generated cells, real method vs `Drivers/C16.lean`).
+
+All theorems are stated for the call
+`run oi cell cache root reorder optimise lim fuel` under the hypotheses `Wf cell cache root lim fuel k t`
+(`Proofs/Section.lean`; decidable form `hypB`, evaluated by the driver on every generated case), for EVERY cell,
+tree shape, id assignment, attachment fraction, pre-existing groups and flag setting.  `oi` is the part of
+`optimise_segment_group` that C16 does not model (groups with includes; property C14): any id-preserving
+function.  `NG` below is `newGroups cell.groups.length t`, the explicit list of new groups.
+-/
 namespace NmlVerif.Section
-theorem placeholder : True := trivial
+
+variable {oi : List Group → Group → Group} {cell : St} {cache : Option Adj} {root lim fuel k : Nat} {t : Tree}
+
+/-- **The call succeeds and this is its result.**  The segment list is only refined (implied proximals made
+    explicit — `Refines`), every pre-existing group is still there (`OldRel`: same id; literally the same group
+    unless optimisation is on and the group has includes or repeated members), and the group list is the old
+    groups followed by exactly the new groups `NG` — up to the reordering of the default groups when
+    `reorder` is on. -/
+theorem c16_result (hoi : IdPreserving oi) (W : Wf cell cache root lim fuel k t) (reorder optimise : Bool) :
+    ∃ cell' olds', run oi cell cache root reorder optimise lim fuel = .ok cell' ∧
+      Refines cell.segs cell'.segs ∧
+      Rel2 (OldRel optimise) cell.groups olds' ∧
+      cell'.groups.Perm (olds' ++ newGroups cell.groups.length t) ∧
+      (reorder = false → cell'.groups = olds' ++ newGroups cell.groups.length t) ∧
+      HasProx cell'.segs root ∧ (∀ ch ∈ rest t, HasProx cell'.segs ch.1) := by
+  obtain ⟨segs', gs', olds', h1, h2, h3, h4, h5, h6, h7⟩ := run_spec hoi cell cache root reorder optimise lim fuel k t
+    W.cache_fresh W.ids_nodup W.repr W.root_eq W.tree W.fuel_ok W.frames W.proximal W.no_clash W.ids_nonempty
+  exact ⟨⟨segs', gs'⟩, olds', h1, h2, h5, h6, h7, h3, h4⟩
+
+/-- the new groups are exactly the groups of the result that carry the section NeuroLex id and whose id did not
+    exist before (this is how the harness, and a user, finds them) -/
+theorem c16_new_groups_identified (hoi : IdPreserving oi) (W : Wf cell cache root lim fuel k t)
+    (reorder optimise : Bool) :
+    ∃ cell', run oi cell cache root reorder optimise lim fuel = .ok cell' ∧
+      (newSectionGroups cell cell').Perm (newGroups cell.groups.length t) := by
+  obtain ⟨cell', olds', h1, _, h3, h4, _⟩ := c16_result hoi W reorder optimise
+  refine ⟨cell', h1, newSectionGroups_perm h3 h4 ?_⟩
+  intro n hn
+  exact ⟨(newGroups_members hn).1, fun g hg => W.no_clash g hg n hn⟩
+
+/-- every new group is marked as a section, includes nothing, and is not empty -/
+theorem c16_new_groups_marked (W : Wf cell cache root lim fuel k t) :
+    ∀ n ∈ newGroups cell.groups.length t, n.nlx = some sectionNlx ∧ n.includes = [] ∧ n.members ≠ [] := by
+  intro n hn
+  obtain ⟨h1, h2, _⟩ := newGroups_members hn
+  exact ⟨h1, h2, (newGroups_good W.repr hn).1.ne_nil⟩
+
+/-- **Partition.**  Concatenating the member lists of the new groups gives a list without repetition whose
+    elements are exactly the ids reachable from the root: every reachable segment is in exactly one new group,
+    once, and nothing else is. -/
+theorem c16_partition (W : Wf cell cache root lim fuel k t) :
+    ((newGroups cell.groups.length t).map (·.members)).flatten.Nodup ∧
+    ∀ x, x ∈ ((newGroups cell.groups.length t).map (·.members)).flatten ↔ Reach (adjacency cell.segs) root x := by
+  rw [newGroups_flat]
+  refine ⟨W.tree, fun x => ?_⟩
+  rw [← W.root_eq]
+  exact (reach_iff_mem_preorder W.repr x).symm
+
+/-- the same, counted: a reachable segment is a member of exactly one new group -/
+theorem c16_exactly_one (W : Wf cell cache root lim fuel k t) (x : Nat) (hx : Reach (adjacency cell.segs) root x) :
+    (((newGroups cell.groups.length t).map (·.members)).filter (fun l => decide (x ∈ l))).length = 1 :=
+  count_containing (c16_partition W).1 (((c16_partition W).2 x).2 hx)
+
+/-- **Chain.**  Consecutive members of a new group are parent and child. -/
+theorem c16_chain (W : Wf cell cache root lim fuel k t) :
+    ∀ n ∈ newGroups cell.groups.length t, IsChain (ParentOf cell.segs) n.members :=
+  fun _ hn => (newGroups_good W.repr hn).1.isChain W.ids_nodup
+
+/-- **No branch point inside.**  Every member but the last has exactly one child (the next member). -/
+theorem c16_no_inner_branch (W : Wf cell cache root lim fuel k t) :
+    ∀ n ∈ newGroups cell.groups.length t, ∀ a ∈ n.members.dropLast, ∃ c, childrenOf cell.segs a = [c] :=
+  fun _ hn => (newGroups_good W.repr hn).1.inner
+
+/-- **Maximal at the bottom.**  The last member is a leaf or a branch point (never a segment with one child). -/
+theorem c16_maximal_bottom (W : Wf cell cache root lim fuel k t) :
+    ∀ n ∈ newGroups cell.groups.length t, ∀ z, n.members.getLast? = some z →
+      childrenOf cell.segs z = [] ∨ 2 ≤ (childrenOf cell.segs z).length :=
+  fun _ hn => (newGroups_good W.repr hn).1.last
+
+/-- **Maximal at the top.**  The first member is the given root, or a child of a reachable branch point. -/
+theorem c16_maximal_top (W : Wf cell cache root lim fuel k t) :
+    ∀ n ∈ newGroups cell.groups.length t, ∀ h, n.members.head? = some h →
+      h = root ∨ ∃ p, Reach (adjacency cell.segs) root p ∧ h ∈ childrenOf cell.segs p ∧
+        2 ≤ (childrenOf cell.segs p).length := by
+  intro n hn h hh
+  rcases (newGroups_good W.repr hn).2 with ⟨l, e⟩ | ⟨h', l, p, cs, e, hp, hl, h2, hc⟩
+  · left
+    rw [e] at hh
+    simp only [List.head?_cons, Option.some.injEq] at hh
+    rw [← hh, W.root_eq]
+  · right
+    rw [e] at hh
+    simp only [List.head?_cons, Option.some.injEq] at hh
+    subst hh
+    have := lookup_adjacency_some hl
+    refine ⟨p, ?_, by rw [this]; exact hc, by rw [this]; exact h2⟩
+    rw [← W.root_eq]
+    exact (reach_iff_mem_preorder W.repr p).2 hp
+
+/-- **First segment has an explicit proximal, equal to the implied one.**  After the call the first member of
+    every new group carries an explicit proximal point, and that point is the proximal the morphology implied
+    before the call. -/
+theorem c16_first_proximal (hoi : IdPreserving oi) (W : Wf cell cache root lim fuel k t) (reorder optimise : Bool) :
+    ∃ cell', run oi cell cache root reorder optimise lim fuel = .ok cell' ∧
+      ∀ n ∈ newGroups cell.groups.length t, ∀ h, n.members.head? = some h →
+        ∃ s q, getSegment cell'.segs h = some s ∧ s.prox = some q ∧ Implied cell.segs h q := by
+  obtain ⟨cell', _, h1, h2, _, _, _, h6, h7⟩ := c16_result hoi W reorder optimise
+  refine ⟨cell', h1, ?_⟩
+  intro n hn h hh
+  have hp : HasProx cell'.segs h := by
+    obtain ⟨_, _, hm⟩ := newGroups_members hn
+    rcases hm with hm | ⟨ch, hc, hm⟩
+    · obtain ⟨l, e⟩ := first_cons t
+      rw [hm, e] at hh
+      simp only [List.head?_cons, Option.some.injEq] at hh
+      rw [← hh, W.root_eq]
+      exact h6
+    · obtain ⟨_, ⟨l, e⟩, _⟩ := rest_ok t W.repr ch hc
+      rw [hm, e] at hh
+      simp only [List.head?_cons, Option.some.injEq] at hh
+      rw [← hh]
+      exact h7 ch hc
+  obtain ⟨s, q, hs, hq⟩ := hp
+  exact ⟨s, q, hs, hq, (h2.implied_iff h q).2 (.explicit hs hq)⟩
+
+/-- **Geometry and parents unchanged.**  The segments after the call are the segments before it, one by one
+    (`Refines`: same id, same parent and fraction, same distal point; the proximal is untouched, or was absent
+    and is now the implied one), and the actual proximal point of EVERY segment (hence its length, area and
+    volume, which are functions of the actual proximal and the distal point) is the same before and after. -/
+theorem c16_geometry_unchanged (hoi : IdPreserving oi) (W : Wf cell cache root lim fuel k t)
+    (reorder optimise : Bool) :
+    ∃ cell', run oi cell cache root reorder optimise lim fuel = .ok cell' ∧
+      Refines cell.segs cell'.segs ∧ cell'.segs.length = cell.segs.length ∧
+      ∀ x q, Implied cell.segs x q ↔ Implied cell'.segs x q := by
+  obtain ⟨cell', _, h1, h2, _⟩ := c16_result hoi W reorder optimise
+  exact ⟨cell', h1, h2, rel2_length h2, fun x q => h2.implied_iff x q⟩
+
+/-- **Pre-existing groups unchanged** (both post-passes off): the group list is the old list followed by the
+    new groups; nothing else. -/
+theorem c16_old_groups_unchanged (hoi : IdPreserving oi) (W : Wf cell cache root lim fuel k t) :
+    ∃ cell', run oi cell cache root false false lim fuel = .ok cell' ∧
+      cell'.groups = cell.groups ++ newGroups cell.groups.length t := by
+  obtain ⟨cell', olds', h1, _, h3, _, h5, _⟩ := c16_result hoi W false false
+  rw [rel2_oldrel_false h3] at h5
+  exact ⟨cell', h1, h5 rfl⟩
+
+/-- with `reorder` on (optimisation off) the groups are the same groups, permuted -/
+theorem c16_old_groups_reordered (hoi : IdPreserving oi) (W : Wf cell cache root lim fuel k t) (reorder : Bool) :
+    ∃ cell', run oi cell cache root reorder false lim fuel = .ok cell' ∧
+      cell'.groups.Perm (cell.groups ++ newGroups cell.groups.length t) := by
+  obtain ⟨cell', olds', h1, _, h3, h4, _⟩ := c16_result hoi W reorder false
+  rw [rel2_oldrel_false h3] at h4
+  exact ⟨cell', h1, h4⟩
+
+/-- with optimisation on, a pre-existing group without includes and without repeated members is still
+    literally unchanged; every other pre-existing group keeps its id (what else happens to it is
+    `optimise_segment_group`, property C14) -/
+theorem c16_old_groups_optimised (hoi : IdPreserving oi) (W : Wf cell cache root lim fuel k t) (reorder : Bool) :
+    ∃ cell' olds', run oi cell cache root reorder true lim fuel = .ok cell' ∧
+      cell'.groups.Perm (olds' ++ newGroups cell.groups.length t) ∧
+      Rel2 (fun g g' => g'.id = g.id ∧ (Clean g → g' = g)) cell.groups olds' := by
+  obtain ⟨cell', olds', h1, _, h3, h4, _⟩ := c16_result hoi W reorder true
+  exact ⟨cell', olds', h1, h4, rel2_mono (fun g g' h => ⟨h.1, fun hc => h.2 (Or.inr hc)⟩) h3⟩
+
+/-! ## Known findings: the three hypotheses that cannot be dropped
+
+Full-strength statement: for every well-formed *input* (no assumption on frames, names of pre-existing groups,
+or the adjacency cache the cell acquired earlier in its life) the call succeeds and every reachable segment is
+in exactly one new section group. -/
+
+/-- every reachable segment is a member of exactly one new section group of the result -/
+def Partitioned (cell cell' : St) (root : Nat) : Prop :=
+  ∀ x, Reach (adjacency cell.segs) root x →
+    ((newSectionGroups cell cell').filter (fun g => decide (x ∈ g.members))).length = 1
+
+/-- `optimise_segment_group` on groups with includes, as the driver instantiates it (left alone) -/
+def idOi : List Group → Group → Group := fun _ g => g
+
+theorem idOi_preserving : IdPreserving idOi := fun _ _ => rfl
+
+/-- well-formed input: distinct segment ids, a tree below the root, proximal points defined, group ids not empty -/
+structure WfInput (cell : St) (root fuel : Nat) (t : Tree) : Prop where
+  ids_nodup : (cell.segs.map (·.id)).Nodup
+  repr : Repr (adjacency cell.segs) t
+  root_eq : t.id = root
+  tree : (preorder t).Nodup
+  fuel_ok : need t ≤ fuel
+  proximal : ∃ k, ∀ x ∈ preorder t, ∃ p, actualProximal cell.segs k x = .ok p
+  ids_nonempty : ∀ g ∈ cell.groups, g.id ≠ ""
+
+/-- FULL-STRENGTH statement (false on the current code, see the three witnesses): any frame budget that suffices
+    for an unbranched cell, any cache the cell may have acquired while it was being built (none, or the
+    adjacency list of its first `m` segments), any pre-existing groups. -/
+def c16_full : Prop :=
+  ∀ (cell : St) (cache : Option Adj) (root : Nat) (reorder optimise : Bool) (lim fuel : Nat) (t : Tree),
+    WfInput cell root fuel t → 2 ≤ lim →
+    (cache = none ∨ ∃ m, cache = some (adjacency (cell.segs.take m))) →
+    ∃ cell', run idOi cell cache root reorder optimise lim fuel = .ok cell' ∧ Partitioned cell cell' root
+
+/-- the strongest true restriction: the conclusion of `c16_full` under `Wf` (fresh cache, no generated name
+    taken, nesting of branch points and proximal chains within the frame budget) -/
+theorem c16_partial (W : Wf cell cache root lim fuel k t) (reorder optimise : Bool) :
+    ∃ cell', run idOi cell cache root reorder optimise lim fuel = .ok cell' ∧ Partitioned cell cell' root := by
+  obtain ⟨cell', h1, h2⟩ := c16_new_groups_identified idOi_preserving W reorder optimise
+  refine ⟨cell', h1, fun x hx => ?_⟩
+  have hp := (h2.filter (fun g => decide (x ∈ g.members))).length_eq
+  rw [hp]
+  have := c16_exactly_one W x hx
+  rw [List.filter_map, List.length_map] at this
+  exact this
+
+/-! ### witnesses -/
+
+def pt (x y z d : Int) : Pt := ⟨x, y, z, d⟩
+
+/-- root 0 with children 1, 2; 2 has children 3, 4: two nested branch points -/
+def wSegs : List Seg :=
+  [⟨0, none, some (pt 0 0 0 1), pt 1 0 0 1⟩, ⟨1, some (0, 1), none, pt 2 1 0 1⟩, ⟨2, some (0, 1), none, pt 2 0 0 1⟩,
+   ⟨3, some (2, 1 / 2), none, pt 3 1 0 1⟩, ⟨4, some (2, 1), none, pt 3 0 0 1⟩]
+
+def wTree : Tree := .node 0 [.node 1 [], .node 2 [.node 3 [], .node 4 []]]
+
+theorem wInput (groups : List Group) (hne : ∀ g ∈ groups, g.id ≠ "") : WfInput ⟨wSegs, groups⟩ 0 20 wTree where
+  ids_nodup := by show (wSegs.map (·.id)).Nodup; decide
+  repr := (buildTree_sound (adjacency wSegs) 6 0 wTree (by rfl)).1
+  root_eq := rfl
+  tree := by decide
+  fuel_ok := by decide
+  proximal := ⟨3, all_isOk (segs := wSegs) (by decide +kernel)⟩
+  ids_nonempty := hne
+
+/-- KNOWN FINDING `C16:recursion-limit:nested-branch-points`: with 2 frames the call on two nested branch points
+    raises `RecursionError` (in the real interpreter: ~990 nested branch points at the default limit) -/
+theorem c16_witness_recursion : ¬ c16_full := by
+  intro h
+  obtain ⟨cell', h1, _⟩ := h ⟨wSegs, []⟩ none 0 false false 2 20 wTree (wInput [] (by simp)) (by decide) (Or.inl rfl)
+  have : run idOi ⟨wSegs, []⟩ none 0 false false 2 20 = .error .recursion := by decide +kernel
+  rw [this] at h1
+  cases h1
+
+/-- 0 ← 1 ← 2 ← {3, 4}, everything below 0 attached at fraction 1/2 without explicit proximal -/
+def wSegsP : List Seg :=
+  [⟨0, none, some (pt 0 0 0 1), pt 8 0 0 1⟩, ⟨1, some (0, 1 / 2), none, pt 8 8 0 1⟩, ⟨2, some (1, 1 / 2), none, pt 0 8 0 1⟩,
+   ⟨3, some (2, 1 / 2), none, pt 3 1 0 1⟩, ⟨4, some (2, 1 / 2), none, pt 3 0 0 1⟩]
+
+def wTreeP : Tree := .node 0 [.node 1 [.node 2 [.node 3 [], .node 4 []]]]
+
+/-- KNOWN FINDING `C16:recursion-limit:implied-proximal-chain`: one branch point only, but making the proximal of
+    its children explicit needs one `get_actual_proximal` frame per ancestor; with 3 frames: `RecursionError` -/
+theorem c16_witness_proximal_chain : ¬ c16_full := by
+  intro h
+  have hw : WfInput ⟨wSegsP, []⟩ 0 20 wTreeP :=
+    { ids_nodup := by show (wSegsP.map (·.id)).Nodup; decide
+      repr := (buildTree_sound (adjacency wSegsP) 6 0 wTreeP (by rfl)).1
+      root_eq := rfl
+      tree := by decide
+      fuel_ok := by decide
+      proximal := ⟨4, all_isOk (segs := wSegsP) (by decide +kernel)⟩
+      ids_nonempty := by simp }
+  obtain ⟨cell', h1, _⟩ := h ⟨wSegsP, []⟩ none 0 false false 3 20 wTreeP hw (by decide) (Or.inl rfl)
+  have : run idOi ⟨wSegsP, []⟩ none 0 false false 3 20 = .error .recursion := by decide +kernel
+  rw [this] at h1
+  cases h1
+
+/-- on outcome `r`, reachable segment `x` is NOT in exactly one new section group -/
+def violatesAt (cell : St) (x : Nat) (r : Except Err St) : Bool :=
+  match r with
+  | .ok c => ((newSectionGroups cell c).filter (fun g => decide (x ∈ g.members))).length != 1
+  | .error _ => true
+
+theorem not_full_of_violation {cell : St} {cache : Option Adj} {root lim fuel x : Nat} {reorder optimise : Bool}
+    {t : Tree} (hw : WfInput cell root fuel t) (hl : 2 ≤ lim)
+    (hc : cache = none ∨ ∃ m, cache = some (adjacency (cell.segs.take m)))
+    (hx : Reach (adjacency cell.segs) root x)
+    (hv : violatesAt cell x (run idOi cell cache root reorder optimise lim fuel) = true) : ¬ c16_full := by
+  intro h
+  obtain ⟨cell', h1, h2⟩ := h cell cache root reorder optimise lim fuel t hw hl hc
+  rw [h1] at hv
+  have := h2 x hx
+  simp [violatesAt, this] at hv
+
+/-- KNOWN FINDING `C16:generated-name-collision`: a pre-existing group called `seg_group_1_seg_1` is reused for
+    the chain starting at segment 1, which therefore is in no new group (and the old group grows) -/
+theorem c16_witness_name_collision : ¬ c16_full :=
+  not_full_of_violation (cell := ⟨wSegs, [⟨"seg_group_1_seg_1", none, [4], []⟩]⟩) (cache := none) (root := 0)
+    (lim := 50) (fuel := 20) (x := 1) (reorder := false) (optimise := false)
+    (wInput _ (by decide)) (by decide) (Or.inl rfl)
+    (.step (cs := [1, 2]) .refl (by decide +kernel) (by decide)) (by decide +kernel)
+
+/-- KNOWN FINDING `C16:stale-adjacency-cache`: the cell computed its adjacency list when it had two segments;
+    the segments added later (here segment 2) are in no new group -/
+theorem c16_witness_stale_cache : ¬ c16_full :=
+  not_full_of_violation (cell := ⟨wSegs, []⟩) (cache := some (adjacency (wSegs.take 2))) (root := 0)
+    (lim := 50) (fuel := 20) (x := 2) (reorder := false) (optimise := false)
+    (wInput [] (by simp)) (by decide) (Or.inr ⟨2, rfl⟩)
+    (.step (cs := [1, 2]) .refl (by decide +kernel) (by decide)) (by decide +kernel)
+
+/-! ### the hypotheses are satisfiable (non-vacuity), on a cell with pre-existing groups, nested branch points,
+    fractional attachment, default and section-marked old groups -/
+
+def exCell : St :=
+  ⟨wSegs, [⟨"soma_group", none, [0, 0], []⟩, ⟨"all", none, [0, 1], ["soma_group"]⟩, ⟨"old_sec", some sectionNlx, [3], []⟩]⟩
+
+example : ∃ t k, Wf exCell none 0 10 20 k t := hypB_sound (by decide +kernel)
+
+example : IdPreserving idOi := idOi_preserving
+
+/-- and on that cell the model computes what the theorems say (default flags) -/
+example : (run idOi exCell none 0 true true 10 20).toOption.map (fun c => c.groups.map (fun g => (g.id, g.members))) =
+    some [("old_sec", [3]), ("seg_group_3_seg_0", [0]), ("seg_group_3_seg_1", [1]), ("seg_group_4_seg_2", [2]),
+      ("seg_group_5_seg_3", [3]), ("seg_group_6_seg_4", [4]), ("soma_group", [0]), ("all", [0, 1])] := by
+  decide +kernel
+
 end NmlVerif.Section
